@@ -382,6 +382,16 @@ class TreeValue_to_string(_TV):
     def inputs(self, cx, case):
         return {"self": self._self(cx, case[0])}
 
+    # call-site direction (used by contracts/fuzz.py): the verified postconditions over a snapshot of the receiver
+    def may_raise(self, cx, a):
+        return [("FandangoConversionError", z3.Length(view(a["self"])[2]) % 8 != 0)]
+
+    def effects(self, cx, a):
+        cx.ghost["self0"] = snapshot(cx, a["self"])
+
+    def fresh_result(self, cx, a):
+        return cx.str("to_string_result")
+
     def ensures(self, cx, a, r):
         s0 = cx.ghost["self0"]
         empty_bits = z3.Length(s0["bits"]) == 0
